@@ -50,7 +50,9 @@ pub struct ProcFacts {
     pub comm_begin: Option<(u64, u64, Option<u64>)>,
     /// (t, ovh, result, n_out, n_err, seq)
     pub comm_end: Option<(u64, u64, String, Option<u64>, Option<u64>, u64)>,
-    pub wait: Option<(u64, String)>,
+    pub wait: Option<(u64, String, u64)>,
+    /// the first wait on this process (a later one may follow a kill)
+    pub wait_first: Option<(u64, String, u64)>,
     pub killed: Option<(u64, u8, u64)>,
     pub parent_close: Option<(u64, u64)>,
     pub faults: Vec<String>,
@@ -70,6 +72,29 @@ impl ProcFacts {
     }
     pub fn comm_result(&self) -> Option<&str> {
         self.comm_end.as_ref().map(|c| c.2.as_str())
+    }
+    /// When and how scrut stopped waiting for this process: (t, ovh, "ok" | "timed_out").
+    /// None when communication failed (no timing claim then).
+    pub fn stopped_waiting(&self) -> Option<(u64, u64, &'static str)> {
+        let ce = self.comm_end.as_ref()?;
+        if ce.2 == "timed_out" {
+            return Some((ce.0, ce.1, "timed_out"));
+        }
+        if ce.2 != "ok" {
+            return None;
+        }
+        match &self.wait_first {
+            // the pipes reached EOF but the process ran on until the limit expired
+            Some((t, r, ovh)) if r == "None" => Some((*t, *ovh, "timed_out")),
+            Some((t, _, ovh)) => Some((ce.0.max(*t), ce.1.max(*ovh), "ok")),
+            None => {
+                if self.killed.map(|k| self.exit_seq > k.2).unwrap_or(false) {
+                    Some((ce.0, ce.1, "timed_out"))
+                } else {
+                    Some((ce.0, ce.1, "ok"))
+                }
+            }
+        }
     }
     /// the moment the process was gone and its output pipes were at EOF (None = never)
     pub fn natural_end(&self) -> Option<u64> {
@@ -286,7 +311,10 @@ pub fn extract(sc: &Scenario, log: &[LogEntry]) -> Facts {
             }
             LogEv::Wait { pid, result } => {
                 ensure(&mut f, *pid);
-                f.procs[*pid as usize].wait = Some((e.t, result.clone()));
+                f.procs[*pid as usize].wait = Some((e.t, result.clone(), e.ovh));
+                if f.procs[*pid as usize].wait_first.is_none() {
+                    f.procs[*pid as usize].wait_first = Some((e.t, result.clone(), e.ovh));
+                }
             }
             LogEv::Kill { pid, sig } => {
                 ensure(&mut f, *pid);
